@@ -346,9 +346,11 @@ structure RemoteDumpable (d : DbContent) : Prop where
   files : ∀ r ∈ d.cls.live, selectedRel {} r = true → r.filenode ≠ 1259 ∧ r.filenode ≠ 1249 ∧ d.raws.lookup r.filenode = none
   readable : ∀ r ∈ d.cls.live, selectedRel {} r = true → ∀ pages, d.heaps.lookup r.filenode = some pages → pages ≠ [] → RelReadable d r
   inline : A02Free d {}
+  /-- carve-out of open finding C01-MISSINGVAL: the database records no fast default -/
+  nofast : d.missing = []
 
-theorem remoteDumpable_of (l : Layout) (d : DbContent) (h : DbDumpable l d {} ∧ A02Free d {}) : RemoteDumpable d :=
-  ⟨h.1.files, fun r hr hs pages hp hne => h.1.readable r hr hs pages hp rfl hne, h.2⟩
+theorem remoteDumpable_of (l : Layout) (d : DbContent) (h : DbDumpable l d {} ∧ A02Free d {}) (hm : d.missing = []) : RemoteDumpable d :=
+  ⟨h.1.files, fun r hr hs pages hp hne => h.1.readable r hr hs pages hp rfl hne, h.2, hm⟩
 
 /-- **DumpDatabase on the tree of a cluster.**  For a live database `db`: the client answers with the database's oid and
 name and — if the database has a directory — the Spec's tables of the database at default options (ordinary tables, not
@@ -375,7 +377,7 @@ theorem dumpDatabaseCold_tree (dec : Dec) (hd : CatDec dec) (htot : Props.C10.Ro
     exact ⟨_, rfl, rfl⟩
   | some d =>
     have hdwf : d.WF c.layout := hwf.2.2.2.2.2.2 (db.oid, d) (lookup_mem_pair _ _ _ hl)
-    obtain ⟨hfiles, hread, hinl⟩ := hdump d hl
+    obtain ⟨hfiles, hread, hinl, hmiss⟩ := hdump d hl
     rw [tablesCold_tree dec hd π hπ c hwf fs htree hver db.oid d hl]
     simp only [ok_bind]
     obtain ⟨ts, hts⟩ := Props.C10.Cluster.C10_total_dumpDatabaseFromFiles (readRows dec)
@@ -386,7 +388,7 @@ theorem dumpDatabaseCold_tree (dec : Dec) (hd : CatDec dec) (htot : Props.C10.Ro
     simp only [ok_bind, pure_eq_ok]
     refine ⟨_, rfl, ?_⟩
     have hspec := dumpDatabase_spec dec hd π hπ c.layout d { pgVersion := c.pgVersion } db (fun fn => fs (basePath db.oid fn)) hdwf
-      (schemaOK_version c hwf.1 d.att) (Or.inl rfl) hinl
+      (schemaOK_version c hwf.1 d.att) (Or.inl rfl) hinl hmiss
       (fun r hr hs _ => by
         obtain ⟨h1, h2, h3⟩ := hfiles r hr hs
         exact htree.heap db.oid d hl r.filenode h1 h2 h3)
